@@ -239,8 +239,8 @@ pub fn run(ctx: &Ctx) -> Report {
         return rep;
     }
     let quick = ctx.quick();
-    let stride2 = if quick { 331 } else { 13 };
-    let n_random = ctx.budget(400, 20_000);
+    let stride2 = if quick { 101 } else { 7 };
+    let n_random = ctx.budget(4_000, 100_000);
     let seed = ctx.seed;
     let mut rep = parallel(ctx.threads, |shard, n| {
         let mut rep = Report::new();
